@@ -53,7 +53,9 @@ def correspondence(ctx):
 
     res = corr_run(ctx.model, cases(), cfg)
     res["area"] = "analyzer (T1-b)"
-    return [res]
+    import corr_config as CC
+
+    return [CC.corr_tables(ctx.model), res]
 
 
 class Oracle:
